@@ -262,3 +262,44 @@ def gadget_networks() -> dict[str, list[list[int]]]:
     g["xnor_2latch"] = bn.disjoint_union(g["xnor_latch"], g["latch"])
     g["xnor_3latch"] = bn.disjoint_union(g["xnor_2latch"], g["latch"])
     return g
+
+
+# ------------------------------------------------------------------------------------------------
+# synthetic models with LARGE update functions (C10): decision diagrams with big sub-diagrams that are shared between
+# branches reached under different sets of decision variables (multiplexers over "hidden weighted" style sums of products
+# whose factors are far apart in the variable order)
+# ------------------------------------------------------------------------------------------------
+def big_function_models(rng: random.Random, count: int, max_support: int = 13) -> list[str]:
+    """bnet texts; every model has one or two large functions (support <= max_support incl. the variable) and free inputs"""
+    out = []
+    for _ in range(count):
+        k = 5                                             # pairs p_i & q_i, all p before all q in the (alphabetical) order
+        nsel = rng.choice([2, 2, 2, 3])
+        while 2 * k + nsel + 2 > max_support and nsel > 2:
+            nsel -= 1
+        while 2 * k + nsel + 2 > max_support:
+            k -= 1
+        sel = [f"a{i}" for i in range(nsel)]
+        ps = [f"p{i}" for i in range(k)]
+        qs = [f"q{i}" for i in range(k)]
+        perm = qs[:]
+        rng.shuffle(perm)
+
+        def lit(v):
+            return v if rng.random() < 0.75 else "!" + v
+        big = " | ".join(f"({lit(p)} & {lit(q)})" for p, q in zip(ps, perm))
+        big2 = " | ".join(f"({lit(p)} & {lit(q)})" for p, q in zip(ps, perm[::-1]))
+        other = rng.choice(["g", "!g", "(g & x)", "(g | x)", "x"])
+        cond = rng.choice([" & ".join(sel), " | ".join(sel), f"({sel[0]} & !{sel[1]})", f"(({sel[0]} & {sel[1]}) | (!{sel[0]} & !{sel[1]}))"])
+        shape = rng.choice(["mux", "nested", "nested", "twobig"])
+        if shape == "mux":
+            fx = f"(({cond}) & {other}) | (!({cond}) & ({big}))"
+        elif shape == "nested":
+            fx = f"({sel[0]} & ({big})) | (!{sel[0]} & (({sel[1]} & {other}) | (!{sel[1]} & ({big}))))"
+        else:
+            fx = f"(({cond}) & ({big2})) | (!({cond}) & ({big}))"
+        lines = [f"x, {fx}", f"g, {rng.choice(['g', 'x', '!x', 'g | x'])}"]
+        for v in sel + ps + qs:
+            lines.append(f"{v}, {v}")
+        out.append("\n".join(lines) + "\n")
+    return out
